@@ -98,7 +98,7 @@ func notationRelation(ns []Notation, path string) (explicit, foldOnly, skipRelat
 }
 
 func init() {
-	judges = append(judges, localisationJudge, selfJudgeC14, selfJudgeC03, selfJudgeC11)
+	judges = append(judges, localisationJudge, selfJudgeC14, selfJudgeC03, selfJudgeC11, selfJudgeC17)
 }
 
 // selfJudgeC14 judges the implementation's observation alone: a crash, a hang, or a non-zero exit
@@ -314,6 +314,27 @@ func selfJudgeC11(root string, c GCase, rep *CaseReport) []Judgement {
 		}
 		seen[kw[0]] = true
 		out = append(out, Judgement{Property: "C11", Case: c.Name, Key: kw[0], What: kw[1]})
+	}
+	return out
+}
+
+// selfJudgeC17: interfaces that are not converter interfaces are carried over untouched.
+func selfJudgeC17(root string, c GCase, rep *CaseReport) []Judgement {
+	if judgeProp != "C17" || rep == nil || rep.Model == nil || rep.CLI.Class != "ok" || rep.Output == "" || rep.SetupSrc == "" {
+		return nil
+	}
+	conv := map[string]bool{}
+	for _, b := range rep.Model.Blocks {
+		conv[b.Intf] = true
+	}
+	var out []Judgement
+	seen := map[string]bool{}
+	for _, kw := range judgeUnmarkedInterfaces([]byte(rep.SetupSrc), []byte(rep.Output), conv) {
+		if seen[kw[0]] {
+			continue
+		}
+		seen[kw[0]] = true
+		out = append(out, Judgement{Property: "C17", Case: c.Name, Key: kw[0], What: kw[1]})
 	}
 	return out
 }
